@@ -9,6 +9,8 @@
  R3 same slots on every OMS of path + reverse path.
  R4 slot arithmetic   : mvalue_to_slots = (N-M, N+M-1); assign_spectrum marks exactly that index range and each of
                         its bound/type tests raises SpectrumError.
+ R6 merge / probe     : bitmap_sum is FREE only when both inputs are FREE (finite-domain table over BitmapValue);
+                        a user-fixed (N, M) is probed over its whole width.
  R5 first fit         : policy dispatch picks candidate 0 (first) / -1 (last) of an ascending scan.
 """
 import ast
@@ -475,4 +477,58 @@ def r5_first_fit(ctx):
     ctx.need('R5.first-fit', 4)
 
 
-RULES = [('R1.fresh', r1_fresh), ('R2.commit', r2_commit), ('R4.slots', r4_slots), ('R5.first-fit', r5_first_fit)]
+def r6_merge_and_probe(ctx):
+    """R6: (a) the per-path aggregate treats a slot as free only if it is FREE on every OMS (finite-domain evaluation
+    of bitmap_sum over the three BitmapValue members); (b) a user-fixed (N, M) is accepted only if the whole width M is
+    free: the availability probe for a fixed slot steps by M (result in {0, M}) or its result is compared with M"""
+    from ..enumdomain import pairwise_table, members_of
+    repo = ctx.repo
+    bs = repo.func(MOD, 'bitmap_sum')
+    bv = repo.cls('BitmapValue', MOD)
+    mem = members_of(bv)
+    for need in ('FREE', 'OCCUPIED', 'UNUSABLE'):
+        if need not in mem:
+            raise AnchorMissing(f'BitmapValue.{need}')
+    table = pairwise_table(bs, bv)
+    for (m1, m2), r in sorted(table.items(), key=lambda kv: (kv[0][0].name, kv[0][1].name)):
+        want = mem['FREE'] if (m1 == mem['FREE'] and m2 == mem['FREE']) else mem['OCCUPIED']
+        ctx.check('R6.merge', f'{site(bs)} ({m1.name}, {m2.name})', r == want, key(bs, f'merge|{m1.name}|{m2.name}'),
+                  f'bitmap_sum({m1.name}, {m2.name}) = {r}, expected {want.name}: a slot that is not FREE on every OMS of the path would be '
+                  'offered to the request (or a free one withheld)')
+    agg = repo.func(MOD, 'aggregate_oms_bitmap')
+    bc = calls_to(agg, {'bitmap_sum'})
+    lp = enclosing(bc[0], ast.For) if bc else None
+    ok = len(bc) == 1 and lp is not None and ast.unparse(lp.iter) == f'{agg.params[0]}[1:]' and \
+        not any(isinstance(n, (ast.Break, ast.Continue)) for n in ast.walk(lp))
+    ctx.check('R6.merge', f'{site(agg)} every OMS of the path', ok, key(agg, 'all-oms'),
+              'the aggregate does not merge the bitmap of every OMS of the path after the first')
+    cnm = repo.func(MOD, 'compute_n_m')
+    arms = [n for n in walk_no_nested(cnm.node) if isinstance(n, ast.If) and 'is not None' in ast.unparse(n.test)]
+    fixed = None
+    for n in arms:
+        t = ast.unparse(n.test).replace(' ', '')
+        if t in ('misnotNoneandnisnotNone', 'nisnotNoneandmisnotNone'):
+            fixed = n
+    if fixed is None:
+        raise CannotAnalyse('compute_n_m: arm for a user-fixed (N, M) not found')
+    dc = [c for s in fixed.body for c in ast.walk(s) if isinstance(c, ast.Call) and getattr(c.func, 'id', '') == 'determine_slot_numbers']
+    ok = False
+    det = ''
+    if len(dc) == 1 and len(dc[0].args) == 4:
+        a = [ast.unparse(x) for x in dc[0].args]
+        det = ast.unparse(dc[0])
+        res = stmt_of(cnm, dc[0]).targets[0].id if isinstance(stmt_of(cnm, dc[0]), ast.Assign) else None
+        tests = [ast.unparse(n.test).replace(' ', '') for s in fixed.body for n in ast.walk(s) if isinstance(n, ast.If)]
+        full_step = a[1] == 'n' and a[2] == 'm' and a[3] == 'm'
+        against_m = res is not None and any(t in (f'{res}<m', f'{res}!=m', f'm>{res}', f'{res}<{a[2]}') for t in tests)
+        zero_test = res is not None and any(t in (f'{res}==0', f'not{res}') for t in tests)
+        ok = (full_step and zero_test) or against_m
+        det += f' ; tests {tests}'
+    ctx.check('R6.fixed-slot', site(cnm, fixed), ok, key(cnm, 'fixed-probe'),
+              'a user-fixed (N, M) is accepted without checking that the WHOLE width M around N is free (the probe must step by M, '
+              'or its result be compared with M): a fixed slot whose edge overlaps an existing service would be double-booked', det)
+    ctx.need('R6.merge', 10)
+    ctx.need('R6.fixed-slot', 1)
+
+
+RULES = [('R6.merge-probe', r6_merge_and_probe), ('R1.fresh', r1_fresh), ('R2.commit', r2_commit), ('R4.slots', r4_slots), ('R5.first-fit', r5_first_fit)]
